@@ -196,6 +196,21 @@ def putConf (s : State) (ms : Nat) (enabled : Bool) : State :=
 def restart (s : State) (id limitMs : Nat) (enabled : Bool) : Option State :=
   new (close s) id limitMs enabled
 
+/-! The parts of a restart, and time passing without the flush noticing.
+`Close` writes the unit under THE UNIT'S id (`s.curr.id`), whatever
+`unitIDGen()` says at that moment; `New` loads the bucket of the hour
+`unitIDGen()` returns then. -/
+
+/-- The UnitID generator moves to hour `h`; the once-a-second flush has not run
+yet (or the process is down). -/
+def advance (s : State) (h : Nat) : State := { s with clock := h }
+
+/-- `Close()`: afterwards only the file matters. -/
+def closeOp (s : State) : State := { s with db := close s }
+
+/-- `New(conf)` on the file at the hour the generator shows now. -/
+def openOp (s : State) (limitMs : Nat) (enabled : Bool) : Option State := new s.db s.clock limitMs enabled
+
 /-! ### GET /control/stats -/
 
 /-- `loadUnits(limit)`: `limit - 1` stored units (missing = empty) + current. -/
@@ -337,6 +352,7 @@ def getData (s : State) : Except Fault Resp :=
 inductive Op where
   | upd (e : Entry) (n : Nat)
   | tick (id : Nat)
+  | advance (h : Nat)
   | restart (id limitMs : Nat) (enabled : Bool)
   | setDays (days : Nat)
   | putConf (ms : Nat) (enabled : Bool)
@@ -348,6 +364,7 @@ that `New` rejects is outside the model (`none`). -/
 def step (s : State) : Op → Option State
   | .upd e n => some (updateN s e n).1
   | .tick id => some (tick s id)
+  | .advance h => some (advance s h)
   | .restart id l en => restart s id l en
   | .setDays d => some (setLimitDays s d)
   | .putConf ms en => some (putConf s ms en)
